@@ -38,6 +38,17 @@ Subset (anything else raises ParseError; nothing is guessed):
   targets   may add an abstract input to a function (`extra_params`, e.g. the keccak digest), bind an expression to a term
             of the model (`binds`), map operators of table types (OPS), constants (CONSTS) and callees (EXTERNS), and
             pin the trailing state updates of a `&mut self` method whose decision is translated (`pinned_tail`)
+  state     `&mut self` methods (and closures handed to watch primitives) as state functions: the replica's hres monad
+            (kind state_fn / state_part) or the plain state monad sres of Lib/RustSem.v (flavour "s"; kinds state_fn,
+            closure_body, closure_in): field assignment through the table's setters (nested fields, `op=`), `for` loops
+            threading the state and the loop's `let mut` locals (sfold), `continue`, `bail!`, mutation of the state or of a
+            `let mut` local through retain / clear / push / push_back / insert / remove, callee-table entries that
+            update their receiver (`update`), read or publish the state (`sets_state`); a statement that follows an `if`
+            with a conditional `continue` / value `return` is continued inside the branches
+  pinned    anything that is not translated can only be (a) bound to a term of the model (`binds`, textual), or (b) pinned by
+            the hash of its syntax tree (kind pin, `fn_sha` of closure_in, `sha` of a bound macro block): loops, `.await`
+            plumbing, macros, ranges, arrays, or-patterns, `&mut` expressions and turbofish are PARSED for that purpose
+            and never translated
 Each target is regenerated into coq/theories/Gen/<File>.v on every run of the owning check; the theorems
 Properties/C*Gen*.v state that the generated definitions equal the hand-written model."""
 import os
@@ -256,7 +267,10 @@ def verify_type(n, s):
         if not d or d["kind"] != "tuple" or len(d["fields"]) != 1:
             raise ParseError(f"{src}: {n} is no longer a one-field tuple struct")
         t = parse_type_tokens(d["fields"][0][1], n)
-        if strip(t) != strip(s["inner"]):
+        if s.get("src_inner"):
+            if t != parse_type_src(s["src_inner"]):
+                raise ParseError(f"{src}: {n} wraps {_tok_text(d['fields'][0][1])}, the type table says {s['src_inner']}")
+        elif strip(t) != strip(s["inner"]):
             raise ParseError(f"{src}: {n} wraps {_tok_text(d['fields'][0][1])}, the type table says {s['inner']}")
         s["derives"] = d["derives"]
     elif s["kind"] == "record":
@@ -289,6 +303,7 @@ LIM = R + "/node/libs/concurrency/src/limiter/mod.rs"
 SCHED = MSG + "/schedule.rs"
 STDCONV = R + "/node/libs/protobuf/src/std_conv.rs"
 BFT = R + "/node/components/bft/src"
+NETSRC = R + "/node/components/network/src"
 CHONKY = BFT + "/v2_chonky_bft"
 
 # Types of the replica state machine -> Model/Replica.v.  Fields without a counterpart in the model map to None
@@ -313,6 +328,43 @@ def signed(coq_msg, rust_msg):
 def signed_verify(ty):
     return {(ty, "verify"): dict(template="(if snd (fst {0}) then Ok tt else Err tt)", params=[], ret="anyhow::Result<()>", eff=False,
                                  why="H-SIG: the signature verdict is an input of the model (sgmsg.m_sig_ok)")}
+
+
+def hs_types(handshake_fields, sig_err):
+    return {
+        "Handshake": {"kind": "record", "coq": "hmsg", "fields": handshake_fields},
+        "Signed_SessionId": {"kind": "record", "coq": "hmsg",
+                             "fields": {"msg": ("m_sid", "node::SessionId"), "key": ("m_key", "PublicKey"), "sig": ("m_sig", "Signature")}},
+        "SessionId": {"kind": "opaque", "coq": "Z", "eqb": "Z.eqb"},
+        "PublicKey": {"kind": "opaque", "coq": "Z", "eqb": "Z.eqb"},
+        "GenesisHash": {"kind": "opaque", "coq": "Z", "eqb": "Z.eqb"},
+        "SecretKey": {"kind": "opaque", "coq": "Z"},        # a secret key is identified with its public key (pool index)
+        "Config": {"kind": "opaque", "coq": "unit"},
+        "Recv": {"kind": "opaque", "coq": "recv"},
+        "Claims": {"kind": "opaque", "coq": "unit"},
+        "Ctx": {"kind": "dropped", "coq": "unit"},
+        "Stream": {"kind": "dropped", "coq": "unit"},
+        "Connection": {"kind": "record", "coq": "Z", "mk": "{key}", "into": True,
+                       "fields": {"key": ("id", "node::PublicKey"), "build_version": (None, "Claims"), "stats": (None, "Claims")}},
+        "Error": {"kind": "enum", "coq": "herr",
+                  "variants": {"GenesisMismatch": ("EGenesisMismatch", []), "SessionIdMismatch": ("ESessionIdMismatch", []),
+                               "PeerMismatch": ("EPeerMismatch", []), "Signature": ("ESignature", [sig_err], "drop"),
+                               "Stream": ("EStream", ["ctx::Error"], "drop")}},
+    }
+
+
+HS_EXTERNS = {
+    ("SecretKey", "public"): dict(template="{0}", params=[], ret="PublicKey", eff=False, why="keys are pool indices"),
+    ("Signed_SessionId", "verify"): dict(template="(if verify (m_key {0}) (m_sid {0}) (m_sig {0}) then Ok tt else Err ESignature)", params=[],
+                                         ret="Result<(), Error>", eff=False, why="H-SIG: Model/Handshake.v verify"),
+}
+# what the handshake functions read from the wire and write to it is bound: the received message is the abstract input `r`
+# (Model/Handshake.v recv), the own session id the abstract input `own_sid` (H-SID); the message sent is not part of the decision
+HS_BINDS = [
+    {"rust": "node::SessionId(stream.id().encode())", "coq": "v_own_sid", "type": "node::SessionId"},
+    {"rust": "frame::recv_proto(ctx, stream, MAX_FRAME)", "coq": "(match v_r with RMsg m => Ok m | RClosed => Err EStream end)", "type": "Result<Handshake, Error>"},
+]
+HS_EXTRA = [("own_sid", "node::SessionId"), ("r", "Recv")]
 
 
 REPLICA_TYPES = {
@@ -403,6 +455,28 @@ TARGETS = {
         "out": "theories/Gen/BlockStore.v",
         "requires": "Lib.Outcome Lib.U64 Lib.RustSem Model.BlockStore Gen.Numbers",
         "deps": ["numbers"],
+        "types": {
+            "BlockStoreState": {"kind": "record", "coq": "bss", "src": BS,
+                                "fields": {"first": ("bfirst", "validator::BlockNumber"), "last": ("blast", "Option<Last>")},
+                                "setters": {"first": "{{| bfirst := {v}; blast := blast {s} |}}", "last": "{{| bfirst := bfirst {s}; blast := {v} |}}"}},
+            "BlockStore": {"kind": "record", "coq": "store", "src": BS,
+                           "fields": {"queued": ("queued", "BlockStoreState"), "persisted": ("persisted", "BlockStoreState"),
+                                      "cache": ("cache", "VecDeque<validator::Block>")},
+                           "setters": {"queued": "{{| queued := {v}; persisted := persisted {s}; cache := cache {s} |}}",
+                                       "persisted": "{{| queued := queued {s}; persisted := {v}; cache := cache {s} |}}",
+                                       "cache": "{{| queued := queued {s}; persisted := persisted {s}; cache := {v} |}}"}},
+            "Block": {"kind": "opaque", "coq": "block"},
+        },
+        "externs": {
+            ("Block", "number"): dict(template="(bnum {0})", params=[], ret="validator::BlockNumber", eff=False, why="Model/BlockStore.v bnum"),
+            ("Last", "from"): dict(self=False, template="(bnum {0})", params=["Block"], ret="Last", eff=False,
+                                   why="Model/BlockStore.v represents `last` by the number of the last block"),
+            ("BlockStore", "truncate_cache"): dict(
+                template="({{| queued := queued s; persisted := persisted s; "
+                         "cache := truncate (Z.to_nat gen_BlockStore_CACHE_CAPACITY) (bs_next (persisted s)) (cache s) |}}, Ok tt)",
+                params=[], ret="()", eff="s", why="Model/BlockStore.v truncate: the loop `while COND { pop_front }`; COND and the capacity are "
+                                                 "translated and tied by C08_generated_truncate_cond / _truncate_step"),
+        },
         "items": [
             {"kind": "const", "src": BS, "type": "BlockStore", "name": "CACHE_CAPACITY"},
             {"kind": "fn", "src": BS, "type": "BlockStoreState", "name": "contains"},
@@ -416,6 +490,11 @@ TARGETS = {
                        {"rust": "self.cache[0].number()", "coq": "index_known v_cache_len 0 v_cache_front_number",
                         "type": "validator::BlockNumber", "eff": True}],
              "pin_body": "{ self.cache.pop_front(); }"},
+            # update_persisted and try_push as state functions over the store (the loop of truncate_cache is the model's
+            # `truncate` with the translated capacity; its condition is tied above)
+            {"kind": "state_fn", "flavour": "s", "src": BS, "type": "BlockStore", "name": "update_persisted", "state": "store", "err": "unit",
+             "anyhow": {"head block has been removed from storage, this is not supported": "tt"}},
+            {"kind": "state_fn", "flavour": "s", "src": BS, "type": "BlockStore", "name": "try_push", "as": "try_push_state", "state": "store", "err": "unit"},
             # the decision of try_push (its return value); the three state updates are pinned textually
             {"kind": "decision", "src": BS, "type": "BlockStore", "name": "try_push", "as": "try_push_accepts",
              "params": [("queued", "BlockStoreState"), ("block_number", "validator::BlockNumber")],
@@ -444,7 +523,7 @@ TARGETS = {
             {"kind": "fn", "src": HDR, "type": "Header", "name": "stream_kind"},
             {"kind": "fn", "src": HDR, "type": "Header", "name": "stream_id"},
             {"kind": "fn", "src": HDR, "type": "Header", "name": "raw"},
-            {"kind": "fn", "src": HDR, "type": "Header", "name": "From<[u8;2]>::from", "as": "from_bytes"},
+            {"kind": "fn", "src": HDR, "type": "Header", "name": "From::from", "as": "from_bytes"},
         ],
     },
     "leader": {
@@ -689,6 +768,240 @@ TARGETS = {
                         "coq": "RInternal", "type": "ctx::Error"}]},
         ],
     },
+    "addr_book": {
+        "out": "theories/Gen/AddrBook.v",
+        "requires": "Lib.Outcome Lib.U64 Lib.RustSem Lib.Obs Model.AddrBook",
+        "deps": [],
+        "types": {
+            # the book: im::HashMap<PublicKey, Arc<Signed<NetAddress>>> is the model's key-ordered list of entries
+            "ValidatorAddrs": {"kind": "newtype", "inner": "AddrMap", "src": NETSRC + "/gossip/validator_addrs.rs",
+                               "src_inner": "im::HashMap<validator::PublicKey, Arc<validator::Signed<validator::NetAddress>>>"},
+            "AddrMap": {"kind": "opaque", "coq": "book",
+                        "iter": ("map (fun e => (ekey e, e)) {0}", "Vec<(validator::PublicKey, validator::Signed<validator::NetAddress>)>")},
+            "ValidatorAddrsWatch": {"kind": "newtype", "inner": "Watch", "src": NETSRC + "/gossip/validator_addrs.rs",
+                                    "src_inner": "Watch<ValidatorAddrs>"},
+            "Watch": {"kind": "opaque", "coq": "book"},
+            "WatchGuard": {"kind": "opaque", "coq": "unit"},
+            "NetAddress": {"kind": "record", "coq": "net_address", "src": MSG + "/discovery.rs",
+                           "fields": {"addr": ("na_addr", "net::SocketAddr"), "version": ("na_version", "u64"), "timestamp": ("na_ts", "time::Utc")}},
+            "SocketAddr": {"kind": "opaque", "coq": "Z", "eqb": "Z.eqb"},
+            "Utc": {"kind": "opaque", "coq": "Z", "eqb": "Z.eqb"},
+            "Signed_NetAddress": {"kind": "record", "coq": "entry",
+                                  "fields": {"msg": ("emsg", "validator::NetAddress"), "key": ("ekey", "validator::PublicKey"),
+                                             "sig": ("esig", "validator::Signature")}},
+            "PublicKey": {"kind": "opaque", "coq": "Z", "eqb": "Z.eqb"},
+            "SecretKey": {"kind": "opaque", "coq": "Z"},
+            "Schedule": {"kind": "opaque", "coq": "(list Z)"},
+        },
+        "externs": {
+            ("AddrMap", "get"): dict(template="(get {1} {0})", params=["validator::PublicKey"], ret="Option<validator::Signed<validator::NetAddress>>",
+                                     eff=False, why="Model/AddrBook.v get"),
+            ("AddrMap", "insert"): dict(update="put {2} {0}", params=["validator::PublicKey", "validator::Signed<validator::NetAddress>"], ret="()",
+                                        eff=False, why="Model/AddrBook.v put (the map key of an entry is the entry's own key: insert(d.key.clone(), d))"),
+            ("Schedule", "contains"): dict(template="(mem {1} {0})", params=["validator::PublicKey"], ret="bool", eff=False,
+                                           why="Model/AddrBook.v: the schedule is the list of its keys"),
+            ("Signed_NetAddress", "verify"): dict(template="(if verify {0} then Ok tt else Err EBadSig)", params=[], ret="anyhow::Result<()>", eff=False,
+                                                  why="H-SIG: Model/AddrBook.v verify"),
+            ("SecretKey", "public"): dict(template="{0}", params=[], ret="validator::PublicKey", eff=False, why="keys are ranks; a secret key is identified with its public key"),
+            ("SecretKey", "sign_msg"): dict(template="(sign {0} {1})", params=["validator::NetAddress"], ret="validator::Signed<validator::NetAddress>", eff=False,
+                                            why="H-SIG: Model/AddrBook.v sign"),
+            # the watch: lock().await then borrow() reads the published value, send_replace publishes (H-ATOM: the lock is held
+            # from the read to the publication)
+            ("Watch", "lock"): dict(template="tt", params=[], ret="WatchGuard", eff=False, why="H-ATOM"),
+            ("WatchGuard", "borrow"): dict(template="s", params=[], ret="ValidatorAddrs", eff=False, why="the published book"),
+            ("WatchGuard", "send_replace"): dict(sets_state=True, params=["ValidatorAddrs"], ret="()", eff=False, why="publishes the new book"),
+        },
+        "items": [
+            {"kind": "fn", "src": MSG + "/discovery.rs", "type": "NetAddress", "name": "is_newer"},
+            {"kind": "fn", "src": NETSRC + "/gossip/validator_addrs.rs", "type": "ValidatorAddrs", "name": "get"},
+            {"kind": "fn", "src": NETSRC + "/gossip/validator_addrs.rs", "type": "ValidatorAddrs", "name": "get_newer"},
+            {"kind": "state_fn", "flavour": "s", "src": NETSRC + "/gossip/validator_addrs.rs", "type": "ValidatorAddrs", "name": "update",
+             "err": "uerr", "anyhow": {"duplicate entry for {:?}": "EDuplicate"}},
+            {"kind": "state_fn", "flavour": "s", "src": NETSRC + "/gossip/validator_addrs.rs", "type": "ValidatorAddrsWatch", "name": "update",
+             "as": "watch_update", "err": "uerr", "state": "book"},
+            {"kind": "state_fn", "flavour": "s", "src": NETSRC + "/gossip/validator_addrs.rs", "type": "ValidatorAddrsWatch", "name": "announce",
+             "err": "uerr", "state": "book"},
+        ],
+    },
+    "pool": {
+        "out": "theories/Gen/Pool.v",
+        "requires": "Lib.Outcome Lib.U64 Lib.RustSem Lib.Obs Model.Handshake Model.Pool",
+        "deps": [],
+        "types": {
+            "K": {"kind": "opaque", "coq": "Z", "eqb": "Z.eqb"},      # keys are pool indices; values are not modelled
+            "V": {"kind": "opaque", "coq": "unit"},
+            "KeyMap": {"kind": "opaque", "coq": "(list Z)"},
+            "Pool": {"kind": "record", "coq": "pool", "src": NETSRC + "/pool.rs",
+                     "fields": {"extra_limit": ("p_limit", "usize"), "extra_count": ("p_extra", "usize"),
+                                "allowed": ("p_allowed", "HashSet<K>"), "current": ("p_current", "im::HashMap<K, V>", "KeyMap")},
+                     "setters": {"extra_count": "{{| p_allowed := p_allowed {s}; p_limit := p_limit {s}; p_extra := {v}; p_current := p_current {s} |}}",
+                                 "current": "{{| p_allowed := p_allowed {s}; p_limit := p_limit {s}; p_extra := p_extra {s}; p_current := {v} |}}"}},
+        },
+        "externs": {
+            ("KeyMap", "contains_key"): dict(template="(memz {1} {0})", params=["K"], ret="bool", eff=False, why="Model/Pool.v: `current` is the list of its keys"),
+            ("KeyMap", "insert"): dict(update="{1} :: {0}", params=["K", "V"], ret="()", eff=False, why="insert of a key known to be absent"),
+            ("KeyMap", "remove"): dict(template="(if memz {1} {0} then Some tt else None)", update="removez {1} {0}", params=["K"], ret="Option<V>",
+                                       eff=False, why="Model/Pool.v removez"),
+        },
+        "items": [
+            {"kind": "closure_body", "src": NETSRC + "/pool.rs", "type": "PoolWatch", "name": "insert", "as": "insert_step",
+             "shape": "self.0.send_if_ok(CLOSURE).await", "state_type": "Pool", "state": "pool", "ret": "anyhow::Result<()>", "err": "perr",
+             "anyhow": {"already exists": "EExists", "limit exceeded": "ELimit"}},
+            {"kind": "closure_body", "src": NETSRC + "/pool.rs", "type": "PoolWatch", "name": "remove", "as": "remove_step",
+             "shape": "self.0.lock().await.send_if_modified(CLOSURE);", "state_type": "Pool", "state": "pool", "ret": "bool", "err": "perr"},
+        ],
+    },
+    "handshake_consensus": {
+        "out": "theories/Gen/HandshakeConsensus.v",
+        "requires": "Lib.Outcome Lib.U64 Lib.RustSem Lib.Obs Model.Handshake",
+        "deps": [],
+        "types": hs_types({"session_id": ("id", "validator::Signed<node::SessionId>"), "genesis": ("m_gen", "validator::GenesisHash")}, "anyhow::Error"),
+        "externs": HS_EXTERNS,
+        "items": [
+            {"kind": "fn", "src": NETSRC + "/consensus/handshake/mod.rs", "type": "", "name": "outbound", "as": "validator_outbound", "extra_params": HS_EXTRA,
+             "binds": HS_BINDS + [{"rust": "frame::send_proto(ctx, stream, &Handshake { session_id: me.sign_msg(session_id.clone()), genesis, })",
+                                   "coq": "(Ok tt)", "type": "Result<(), Error>"}]},
+            {"kind": "fn", "src": NETSRC + "/consensus/handshake/mod.rs", "type": "", "name": "inbound", "as": "validator_inbound", "extra_params": HS_EXTRA,
+             "binds": HS_BINDS + [{"rust": "frame::send_proto(ctx, stream, &Handshake { session_id: me.sign_msg(session_id.clone()), genesis, })",
+                                   "coq": "(Ok tt)", "type": "Result<(), Error>"}]},
+        ],
+    },
+    "handshake_gossip": {
+        "out": "theories/Gen/HandshakeGossip.v",
+        "requires": "Lib.Outcome Lib.U64 Lib.RustSem Lib.Obs Model.Handshake",
+        "deps": [],
+        "types": hs_types({"session_id": ("id", "node::Signed<node::SessionId>"), "genesis": ("m_gen", "validator::GenesisHash"),
+                           "is_static": ("m_static", "bool"), "build_version": (None, "Option<semver::Version>")}, "node::InvalidSignatureError"),
+        "externs": HS_EXTERNS,
+        "items": [
+            {"kind": "fn", "src": NETSRC + "/gossip/handshake/mod.rs", "type": "", "name": "outbound", "as": "gossip_outbound", "extra_params": HS_EXTRA,
+             "binds": HS_BINDS + [
+                 {"rust": "frame::send_proto(ctx, stream, &Handshake { session_id: cfg.gossip.key.sign_msg(session_id.clone()), genesis, "
+                          "is_static: cfg.gossip.static_outbound.contains_key(peer), build_version: cfg.build_version.clone(), })",
+                  "coq": "(Ok tt)", "type": "Result<(), Error>"},
+                 {"rust": "h.build_version", "coq": "tt", "type": "Claims"}, {"rust": "stream.stats()", "coq": "tt", "type": "Claims"}]},
+            {"kind": "fn", "src": NETSRC + "/gossip/handshake/mod.rs", "type": "", "name": "inbound", "as": "gossip_inbound", "extra_params": HS_EXTRA,
+             "binds": HS_BINDS + [
+                 {"rust": "frame::send_proto(ctx, stream, &Handshake { build_version: cfg.build_version.clone(), "
+                          "session_id: cfg.gossip.key.sign_msg(session_id.clone()), genesis, "
+                          "is_static: cfg.gossip.static_inbound.contains(&h.session_id.key), })",
+                  "coq": "(Ok tt)", "type": "Result<(), Error>"},
+                 {"rust": "h.build_version", "coq": "tt", "type": "Claims"}, {"rust": "stream.stats()", "coq": "tt", "type": "Claims"}]},
+        ],
+    },
+    # connection admission: handshake -> insert -> serve -> remove as a sequence of pool operations.  The result of the
+    # handshake and of serving the stream are abstract inputs; the pool is the state.
+    "admission": {
+        "out": "theories/Gen/Admission.v",
+        "requires": "Lib.Outcome Lib.U64 Lib.RustSem Lib.Obs Model.Handshake Model.Pool Model.PoolGlue",
+        "deps": [],
+        "types": {
+            "Network": {"kind": "opaque", "coq": "unit"},
+            "PoolHandle": {"kind": "opaque", "coq": "unit"},
+            "HsResult": {"kind": "opaque", "coq": "(outcome herr Z)"},
+            "ServeResult": {"kind": "opaque", "coq": "(outcome unit unit)"},
+            "Connection": {"kind": "record", "coq": "Z", "mk": "{key}", "into": True,
+                           "fields": {"key": ("id", "node::PublicKey"), "build_version": (None, "Claims"), "stats": (None, "Claims")}},
+            "PublicKey": {"kind": "opaque", "coq": "Z", "eqb": "Z.eqb"},
+            "V": {"kind": "opaque", "coq": "unit"},
+            "Claims": {"kind": "opaque", "coq": "unit"},
+            "Ctx": {"kind": "dropped", "coq": "unit"},
+            "Stream": {"kind": "dropped", "coq": "unit"},
+            "Host": {"kind": "dropped", "coq": "unit"},
+            "SocketAddr": {"kind": "dropped", "coq": "unit"},
+        },
+        "externs": {
+            ("PoolHandle", "insert"): dict(template="(pool_insert_s s {1})", params=["PublicKey", "V"], ret="anyhow::Result<()>", eff="s",
+                                           why="Model/PoolGlue.v: Model.Pool.insert, published iff Ok (Watch::send_if_ok)"),
+            ("PoolHandle", "remove"): dict(template="(pool_remove_s s {1})", params=["PublicKey"], ret="()", eff="s",
+                                           why="Model/PoolGlue.v: Model.Pool.remove"),
+        },
+        "items": [
+            {"kind": "state_fn", "flavour": "s", "src": NETSRC + "/gossip/runner.rs", "type": "Network", "name": "run_inbound_stream",
+             "as": "gossip_run_inbound_stream", "err": "cerr", "state": "pool", "extra_params": [("hs", "HsResult"), ("served", "ServeResult")],
+             "binds": [{"rust": "handshake::inbound(ctx, &self.cfg, self.genesis_hash(), &mut stream)", "coq": "(rmap_err CHandshake v_hs)", "type": "Result<Connection, Error>"},
+                       {"rust": "self.inbound", "coq": "tt", "type": "PoolHandle"},
+                       {"rust": "conn.clone()", "coq": "tt", "type": "V"},
+                       {"rust": "self.run_stream(ctx, stream)", "coq": "(rmap_err (fun _ => CServe) v_served)", "type": "anyhow::Result<()>"}]},
+            {"kind": "pin", "src": NETSRC + "/gossip/runner.rs", "type": "Network", "name": "run_outbound_stream",
+             "what": "address resolution and TCP/noise connect", "to": {"let_mentions": "outbound"}, "sha": "5c184022f3437308"},
+            {"kind": "state_fn", "flavour": "s", "src": NETSRC + "/gossip/runner.rs", "type": "Network", "name": "run_outbound_stream",
+             "as": "gossip_run_outbound_stream", "err": "cerr", "state": "pool", "extra_params": [("hs", "HsResult"), ("served", "ServeResult")], "from": {"let_mentions": "outbound"},
+             "binds": [{"rust": "handshake::outbound(ctx, &self.cfg, self.genesis_hash(), &mut stream, peer)", "coq": "(rmap_err CHandshake v_hs)", "type": "Result<Connection, Error>"},
+                       {"rust": "self.outbound", "coq": "tt", "type": "PoolHandle"},
+                       {"rust": "conn.into()", "coq": "tt", "type": "V"},
+                       {"rust": "self.run_stream(ctx, stream)", "coq": "(rmap_err (fun _ => CServe) v_served)", "type": "anyhow::Result<()>"}]},
+            {"kind": "state_fn", "flavour": "s", "src": NETSRC + "/consensus/mod.rs", "type": "Network", "name": "run_inbound_stream",
+             "as": "consensus_run_inbound_stream", "err": "cerr", "state": "pool", "extra_params": [("hs", "HsResult"), ("served", "ServeResult")],
+             "binds": [{"rust": "handshake::inbound(ctx, &self.key, self.gossip.genesis_hash(), &mut stream)", "coq": "(rmap_err CHandshake v_hs)", "type": "Result<PublicKey, Error>"},
+                       {"rust": "self.inbound", "coq": "tt", "type": "PoolHandle"},
+                       {"rust": "stream.stats()", "coq": "tt", "type": "V"},
+                       {"macro": "scope::run", "sha": "fa0b006461a08f98", "coq": "(rmap_err (fun _ => CServe) v_served)", "type": "anyhow::Result<()>"}]},
+            {"kind": "pin", "src": NETSRC + "/consensus/mod.rs", "type": "Network", "name": "run_outbound_stream",
+             "what": "TCP/noise connect", "to": {"kind": "try"}, "sha": "0b0c01b082d0deaa"},
+            {"kind": "state_fn", "flavour": "s", "src": NETSRC + "/consensus/mod.rs", "type": "Network", "name": "run_outbound_stream",
+             "as": "consensus_run_outbound_stream", "err": "cerr", "state": "pool", "extra_params": [("hs", "HsResult"), ("served", "ServeResult")], "from": {"kind": "try"},
+             "binds": [{"rust": "handshake::outbound(ctx, &self.key, self.gossip.genesis_hash(), &mut stream, peer)", "coq": "(rmap_err (fun e => CHandshake e) (rmap_err (fun e => e) (match v_hs with Ok _ => Ok tt | Err e => Err e | Panic p => Panic p end)))", "type": "Result<(), Error>"},
+                       {"rust": "self.outbound", "coq": "tt", "type": "PoolHandle"},
+                       {"rust": "stream.stats()", "coq": "tt", "type": "V"},
+                       {"rust": "rpc::Client::<rpc::consensus::Rpc>::new(ctx, self.gossip.cfg.rpc.consensus_rate)", "coq": "tt", "type": "Claims"},
+                       {"macro": "scope::run", "sha": "f4d06ff22df3294b", "coq": "(rmap_err (fun _ => CServe) v_served)", "type": "anyhow::Result<()>"}]},
+        ],
+    },
+    "fetch": {
+        "out": "theories/Gen/Fetch.v",
+        "requires": "Lib.Outcome Lib.U64 Lib.RustSem Lib.Obs Model.Fetch",
+        "deps": [],
+        "types": {
+            "BlockInner": {"kind": "opaque", "coq": "queue"},          # BTreeMap<BlockNumber, oneshot::Sender<()>>
+            "BlockNumber": {"kind": "opaque", "coq": "Z", "eqb": "Z.eqb"},
+            "Sender": {"kind": "opaque", "coq": "chan"},               # a oneshot sender is named by its channel
+            "Claims": {"kind": "opaque", "coq": "unit"},
+        },
+        "externs": {
+            ("BlockInner", "insert"): dict(update="qinsert {1} {2} {0}", params=["BlockNumber", "Sender"], ret="()", eff=False,
+                                           why="Model/Fetch.v qinsert (an overridden sender is dropped)"),
+            ("BlockInner", "first_key_value"): dict(template="(option_map (fun k => (k, tt)) (qmin {0}))", params=[], ret="Option<(BlockNumber, Claims)>",
+                                                    eff=False, why="Model/Fetch.v qmin: the lowest requested number"),
+            ("BlockInner", "remove"): dict(template="(qlookup {1} {0})", update="qremove {1} {0}", params=["BlockNumber"], ret="Option<Sender>",
+                                           eff=False, why="Model/Fetch.v qlookup / qremove"),
+            ("BlockInner", "remove_entry"): dict(template="(option_map (fun c => ({1}, c)) (qlookup {1} {0}))", update="qremove {1} {0}",
+                                                 params=["BlockNumber"], ret="Option<(BlockNumber, Sender)>", eff=False, why="Model/Fetch.v qlookup / qremove"),
+            ("BlockInner", "is_empty"): dict(template="(qempty {0})", params=[], ret="bool", eff=False, why="Model/Fetch.v qempty"),
+        },
+        "items": [
+            {"kind": "closure_in", "src": NETSRC + "/gossip/fetch.rs", "type": "Queue", "name": "request", "as": "request_insert",
+             "method": "send_if_modified", "index": 0, "fn_sha": "0b7087f2764f5ab0", "state_type": "BlockInner", "state": "queue", "ret": "bool",
+             "locals": [("n", "BlockNumber"), ("send", "Sender")]},
+            {"kind": "closure_in", "src": NETSRC + "/gossip/fetch.rs", "type": "Queue", "name": "request", "as": "request_cancel",
+             "method": "send_if_modified", "index": 1, "fn_sha": "0b7087f2764f5ab0", "state_type": "BlockInner", "state": "queue", "ret": "bool",
+             "locals": [("n", "BlockNumber")]},
+            {"kind": "closure_in", "src": NETSRC + "/gossip/fetch.rs", "type": "Queue", "name": "accept_block", "as": "accept_take",
+             "method": "send_if_modified", "index": 0, "fn_sha": "a52991cc183cf993", "state_type": "BlockInner", "state": "queue", "ret": "bool",
+             "locals": [("block_number", "BlockNumber")], "captures": [("res", "Option<(BlockNumber, Sender)>")]},
+        ],
+    },
+    # code that is too effectful for the subset (poll-based I/O, semaphores): NOT translated, only pinned by the hash of
+    # its syntax tree, so that any change raises an alarm and sends a human back to the hand model
+    "pins_noise": {
+        "out": "theories/Gen/PinsNoise.v", "requires": "Lib.Outcome", "deps": [],
+        "items": [
+            {"kind": "pin", "src": NETSRC + "/noise/stream.rs", "type": "Stream", "name": "poll_flush_frame", "what": "whole body (Model/Noise.v flush of the frame buffer)", "sha": "62b07ccefdb1da67"},
+            {"kind": "pin", "src": NETSRC + "/noise/stream.rs", "type": "Stream", "name": "poll_flush_payload", "what": "whole body (Model/Noise.v: encrypt the payload buffer into one frame)", "sha": "f0f481d5112461d1"},
+            {"kind": "pin", "src": NETSRC + "/noise/stream.rs", "type": "Stream", "name": "io::AsyncWrite::poll_write", "what": "whole body (Model/Noise.v write)", "sha": "c4494bb4e08dcb40"},
+            {"kind": "pin", "src": NETSRC + "/noise/stream.rs", "type": "Stream", "name": "io::AsyncWrite::poll_flush", "what": "whole body (Model/Noise.v flush)", "sha": "59e04b4dee39be34"},
+            {"kind": "pin", "src": NETSRC + "/noise/stream.rs", "type": "Stream", "name": "poll_read_frame", "what": "whole body (Model/Noise.v read of one frame)", "sha": "dca6ba9b8ab04817"},
+            {"kind": "pin", "src": NETSRC + "/noise/stream.rs", "type": "Stream", "name": "poll_read_payload", "what": "whole body (Model/Noise.v decrypt)", "sha": "170cd0df6df7b5d7"},
+            {"kind": "pin", "src": NETSRC + "/noise/stream.rs", "type": "Stream", "name": "io::AsyncRead::poll_read", "what": "whole body (Model/Noise.v read)", "sha": "a573ed7b17c82078"},
+        ],
+    },
+    "pins_mux": {
+        "out": "theories/Gen/PinsMux.v", "requires": "Lib.Outcome", "deps": [],
+        "items": [
+            {"kind": "pin", "src": NETSRC + "/mux/mod.rs", "type": "Mux", "name": "process_inbound_frames",
+             "what": "whole body (Model/Mux.v dispatcher: permit acquisition before reading / forwarding a frame)", "sha": "f2c4067dedc4d1fe"},
+        ],
+    },
     "limiter": {
         "out": "theories/Gen/Limiter.v",
         "requires": "Lib.Outcome Lib.U64 Lib.RustSem",
@@ -760,6 +1073,8 @@ def find_marker(stmts, m, what):
 def _mentions(e, name):
     if isinstance(e, tuple) and len(e) >= 3 and e[0] == "mcall" and e[2] == name:
         return True
+    if isinstance(e, tuple) and len(e) >= 3 and e[0] == "call" and e[1][-1] == name:
+        return True
     if isinstance(e, (tuple, list)):
         return any(_mentions(x, name) for x in e)
     return False
@@ -818,7 +1133,8 @@ def translate(target, _done=None):
         x.setdefault("targets", [target])
         if not any(d in x["targets"] for d in order_of(target)):
             continue
-        externs[key] = Sig(None, [parse_type_src(p) for p in x["params"]], x.get("self", True), parse_type_src(x["ret"]), x["eff"], x["template"])
+        externs[key] = Sig(None, [parse_type_src(p) for p in x["params"]], x.get("self", True), parse_type_src(x["ret"]), x["eff"], x.get("template"))
+        externs[key].flags = {f: x[f] for f in ("update", "sets_state") if f in x}
     tr = Translator(types, externs)
     tr.verify = verify_type
     for (ty, op), x in OPS.items():
@@ -865,12 +1181,16 @@ def translate(target, _done=None):
             f = it.fns.get(key)
             if f is None:
                 raise ParseError(f"{what}: function not found")
+            if item["kind"] == "pin":
+                f = dict(f, params=[], ret=None)      # a pinned body is not translated: its signature need not be in the subset
             self_mode, params = parse_params(f["params"], what)
             ret = subst_self(parse_type_tokens(f["ret"], what) if f["ret"] else ("unit",), item["type"])
             params = [(n, subst_self(t, item["type"])) for n, t in params]
             body = parse_body_tokens(f["body"], what)
-            binds = [{"ast": parse_expr_src(b["rust"], what), "coq": b["coq"], "type": parse_type_src(b["type"]),
-                      "eff": b.get("eff", False)} for b in item.get("binds", [])]
+            binds = [({"ast": parse_expr_src(b["rust"], what), "coq": b["coq"], "type": parse_type_src(b["type"]), "eff": b.get("eff", False)}
+                      if "rust" in b else
+                      {"ast": None, "macro": b["macro"], "sha": b["sha"], "coq": b["coq"], "type": parse_type_src(b["type"])})
+                     for b in item.get("binds", [])]
             extra = [(n, parse_type_src(t)) for n, t in item.get("extra_params", [])]
             if item["kind"] == "fn":
                 if self_mode == "refmut":
@@ -884,7 +1204,7 @@ def translate(target, _done=None):
                     tr.fns[(item["type"], item["name"].split("::")[-1])] = tr.fns[key]     # trait method, callable by its short name
             elif item["kind"] in ("guard", "state_part", "pin"):
                 a = find_marker(body[1], item.get("from"), what)
-                b = find_marker(body[1], item.get("to"), what)
+                b = find_marker(body[1], item["to"], what) if item.get("to") else len(body[1])
                 part = body[1][a:b]
                 at_end = b == len(body[1])
                 if item["kind"] == "pin":
@@ -908,6 +1228,75 @@ def translate(target, _done=None):
                 else:
                     ps = [("self", ("named", item["type"]))] + locs
                     tr.define_fn(what, item["type"], cn, ps, ret, pbody, binds=binds, err_coq="rerr", extra=ex2, state_fn=True)
+            elif item["kind"] == "closure_in":
+                # the k-th closure handed to `method` somewhere in the body (e.g. watch::Sender::send_if_modified): its body is a
+                # state function over the closure's parameter; everything around the closures is pinned by syntax hash
+                found = []
+
+                def strip_closures(e):
+                    if isinstance(e, tuple):
+                        if len(e) >= 4 and e[0] == "mcall" and e[2] == item["method"] and len(e[3]) == 1 and e[3][0][0] == "closure":
+                            found.append(e[3][0])
+                            return ("mcall", strip_closures(e[1]), e[2], [("path", ["CLOSURE"])])
+                        return tuple(strip_closures(x) for x in e)
+                    if isinstance(e, list):
+                        return [strip_closures(x) for x in e]
+                    return e
+                skel = strip_closures(body)
+                h = ast_sha(skel)
+                if h != item["fn_sha"]:
+                    raise ParseError(f"{what}: the code around the {item['method']} closures changed (syntax hash {h}, pinned {item['fn_sha']})")
+                if item["index"] >= len(found):
+                    raise ParseError(f"{what}: closure #{item['index']} of {item['method']} not found")
+                cl = found[item["index"]]
+                if len(cl[1]) != 1 or cl[1][0][0] != "pbind":
+                    raise ParseError(f"{what}: closure parameter changed")
+                sv = cl[1][0][1]
+                cbody = cl[2] if cl[2][0] == "block" else ("block", [], cl[2])
+                caps = [(n, parse_type_src(t)) for n, t in item.get("captures", [])]
+                cret = parse_type_src(item["ret"])
+                if caps:
+                    cbody = ("block", cbody[1], ("tuple", [cbody[2]] + [("path", [n]) for n, _ in caps]))
+                    cret = ("tuple", [cret] + [t for _, t in caps])
+                ps = [(sv, parse_type_src(item["state_type"]))] + [(n, parse_type_src(t)) for n, t in item.get("locals", [])] + caps
+                tr.define_fn(what, item["type"], cn, ps, cret, cbody, binds=binds, err_coq=item.get("err"), extra=extra, state_fn="s",
+                             state_coq=item.get("state"), anyhow=item.get("anyhow"), state_var=sv, mutable=[n for n, _ in caps])
+            elif item["kind"] == "closure_body":
+                # the closure handed to a watch primitive (send_if_ok / send_if_modified): its body is a state function over
+                # the closure's parameter; the call around it is pinned by shape
+                found = []
+
+                def strip_closure(e):
+                    if isinstance(e, tuple):
+                        if e and e[0] == "closure":
+                            found.append(e)
+                            return ("path", ["CLOSURE"])
+                        return tuple(strip_closure(x) for x in e)
+                    if isinstance(e, list):
+                        return [strip_closure(x) for x in e]
+                    return e
+                skel = strip_closure(body)
+                want = parse_body_tokens(lex(item["shape"]), what)
+                if skel != want or len(found) != 1:
+                    raise ParseError(f"{what}: the body is no longer `{item['shape']}` around one closure")
+                cl = found[0]
+                if len(cl[1]) != 1 or cl[1][0][0] != "pbind":
+                    raise ParseError(f"{what}: closure parameter changed")
+                sv = cl[1][0][1]
+                cbody = cl[2] if cl[2][0] == "block" else ("block", [], cl[2])
+                ps = [(sv, parse_type_src(item["state_type"]))] + params
+                cret = parse_type_src(item["ret"])
+                tr.define_fn(what, item["type"], cn, ps, cret, cbody, binds=binds, err_coq=item.get("err"), extra=extra, state_fn="s",
+                             state_coq=item.get("state"), anyhow=item.get("anyhow"), state_var=sv)
+            elif item["kind"] == "state_fn" and item.get("flavour") == "s":
+                # a method whose state is a plain value (no effect list): Lib/RustSem.v sres
+                if item.get("from"):
+                    a0 = find_marker(body[1], item["from"], what)
+                    body = ("block", body[1][a0:], body[2])
+                ps = [("self", ("named", item["type"]))] + params
+                tr.define_fn(what, item["type"], cn, ps, ret, body, binds=binds, err_coq=item.get("err"), extra=extra, state_fn="s",
+                             state_coq=item.get("state"), anyhow=item.get("anyhow"))
+                tr.fns[key] = Sig(cn, [t for _, t in params], True, ret, "s", extra=[n for n, _ in extra])
             elif item["kind"] == "state_fn":
                 if self_mode != "refmut":
                     raise ParseError(f"{what}: expected a `&mut self` method")
@@ -964,12 +1353,12 @@ def translate(target, _done=None):
     for tname, item in all_items:
         kind = "const" if item["kind"] == "const" else "fn"
         if item["kind"] in ("fn", "const", "state_fn"):
-            tr.pending[(kind, item["type"], item["name"])] = make_thunk(tname, item)
+            tr.pending[(kind, item["type"], item["name"] if item["name"] != item.get("as", item["name"]) and False else item["name"]) if not item.get("as") else (kind, item["type"], "@" + item["as"])] = make_thunk(tname, item)
     mine = []
     for tname, item in all_items:
         before = len(tr.out)
         kind = "const" if item["kind"] == "const" else "fn"
-        key = (kind, item["type"], item["name"])
+        key = (kind, item["type"], item["name"]) if not item.get("as") else (kind, item["type"], "@" + item["as"])
         if item["kind"] in ("fn", "const", "state_fn"):
             if key in tr.pending:
                 tr.run_pending(key)
@@ -980,7 +1369,7 @@ def translate(target, _done=None):
     own = {coq_name(i) for t, i in all_items if t == target}
     srcmap = {s["coq"]: s for s in summary}
     lines = [f"(* GENERATED by gen/rust2coq.py (target {target}) on every run of the owning check; do not edit.",
-             "   Sources: " + ", ".join(sorted({os.path.relpath(i["src"], "/") for t, i in all_items if t == target})) + " *)",
+             "   Sources: " + ", ".join(sorted({"repo/" + os.path.relpath(i["src"], R) for t, i in all_items if t == target})) + " *)",
              "From Coq Require Import ZArith List Bool.",
              "From EC Require Import " + spec["requires"] + ".",
              "Import ListNotations.",
@@ -1080,7 +1469,8 @@ def trusted_base(targets):
         for i in TARGETS[t]["items"]:
             used.add(i["src"])
             for b in i.get("binds", []):
-                out.append(f"{i['type']}::{i['name']}: `{b['rust']}` is read as `{b['coq']}`")
+                what_b = b["rust"] if "rust" in b else f"{b['macro']}!(..) block (token hash {b['sha']})"
+                out.append(f"{i['type']}::{i['name']}: `{what_b}` is read as `{b['coq']}`")
             for a in i.get("allowed", []):
                 out.append(f"{i['type']}::{i['name']}: state update `{a}` is pinned textually, not translated")
             if i["kind"] == "pin":
@@ -1101,7 +1491,12 @@ def trusted_base(targets):
     allx = list(EXTERNS.items()) + [(k2, dict(x2, targets=[t2])) for t2 in ts for k2, x2 in TARGETS[t2].get("externs", {}).items()]
     for (ty, m), x in allx:
         if any(t in ts for t in x["targets"]):
-            out.append(f"callee table: {ty}::{m} -> `{x['template']}` ({x['why']})")
+            shown = x.get("template") or ""
+            if x.get("update"):
+                shown += (" ; " if shown else "") + "receiver := " + x["update"]
+            if x.get("sets_state"):
+                shown += (" ; " if shown else "") + "state := {1}"
+            out.append(f"callee table: {ty}::{m} -> `{shown}` ({x['why']})")
     touched = set()
     for t in ts:
         try:
